@@ -226,18 +226,31 @@ func timeDependent(src string) bool {
 
 // Eval compiles and evaluates.
 func Eval(env *core.Env, src string, in []fhir.Resource, copts []fhirpath.CompileOption, eopts []fhirpath.EvaluateOption) Res {
+	key := ""
+	if len(copts) > 0 {
+		key = "-" // unknown options: no reuse comparison
+	}
+	return EvalK(env, key, src, in, copts, eopts)
+}
+
+// EvalK is Eval for callers whose compile options are stateless and identified by optKey (e.g. "experimental"),
+// so that the reuse comparison applies to them too. optKey "-" disables it.
+func EvalK(env *core.Env, optKey, src string, in []fhir.Resource, copts []fhirpath.CompileOption, eopts []fhirpath.EvaluateOption) Res {
 	ex, r := Compile(env, src, copts...)
 	if ex == nil {
 		return r
 	}
 	res := Evaluate(env, ex, in, eopts...)
-	if len(copts) == 0 && !res.IsPanic() && !timeDependent(src) {
+	if optKey != "-" && !res.IsPanic() && !timeDependent(src) {
+		src := optKey + "\x00" + src
 		if old, ok := reuse[src]; ok {
 			r2 := Evaluate(env, old, in, eopts...)
 			ReuseChecked++
 			env.Cover("reused-expression-compared")
-			if !Same(res, r2) {
-				env.Violatef(env.Property+"/reused-expression-differs/"+shapeOf(src), "`%s`: a freshly compiled expression gives %s, the expression compiled and evaluated earlier in this process gives %s on the same input", src, trunc(res.Short(), 200), trunc(r2.Short(), 200))
+			if r2.IsPanic() {
+				env.Violatef(PanicSig(env.Property, r2), "`%s`: the expression compiled and evaluated earlier in this process => %s (a freshly compiled one gives %s)", strings.TrimPrefix(src, optKey+"\x00"), r2.Short(), trunc(res.Short(), 200))
+			} else if !Same(res, r2) {
+				env.Violatef(env.Property+"/reused-expression-differs/"+shapeOf(strings.TrimPrefix(src, optKey+"\x00")), "`%s`: a freshly compiled expression gives %s, the expression compiled and evaluated earlier in this process gives %s on the same input", strings.TrimPrefix(src, optKey+"\x00"), trunc(res.Short(), 200), trunc(r2.Short(), 200))
 			}
 		} else {
 			if len(reuse) > 40000 {
